@@ -177,6 +177,10 @@ def rewind_body(body: typing.IO[typing.AnyStr], body_pos: _TYPE_BODY_POSITION) -
             "Unable to record file position for rewinding "
             "request body during a redirect/retry."
         )
+    elif isinstance(body_pos, int):
+        raise UnrewindableBodyError(
+            "Unable to rewind request body for redirect/retry: it has no seek()."
+        )
     else:
         raise ValueError(
             f"body_pos must be of type integer, instead it was {type(body_pos)}."
